@@ -7,7 +7,7 @@
     does at run time (alignment established by the prologue included) is exercised by checks/C08.py. *)
 From Coq Require Import ZArith List Bool.
 From RbpfV Require Import MachInt Ebpf Cases Mem InterpDefs WellFormed Verifier Isa MemLemmas Interp InterpProofs InterpCalls.
-From RbpfV Require Import X86Sem X86Seq ClMiscProofs JitMiscProofs.
+From RbpfV Require Import X86Sem X86Seq ClMiscProofs JitMiscProofs ClStep JitStep.
 From RbpfV.gen Require Import JitLogic JitMisc ClMisc.
 Import ListNotations.
 Open Scope Z_scope.
@@ -50,6 +50,24 @@ Theorem C08_jit_call_contract : forall R stk, (forall r, 0 <= R r < 2 ^ 64) ->
          /\ forall k, In k [6; 7; 8; 9; 10]%nat -> R3 (ereg k) = R (ereg k).
 Proof. exact jit_helper_call_contract. Qed.
 
+(** the same as one step of the compiled program (JitStep.jit_exec): in the register-map relation [jrel], the emitted call
+    site, around any helper that returns in rax, keeps the callee-saved registers and leaves [g r] elsewhere, applies exactly
+    the function registered under the unsigned immediate to (r1, r2, r3, r4, r5), stores its value in r0, leaves r6-r10 (and
+    the JIT's R10) unchanged, memory untouched, and continues at the next instruction; r1-r5 then hold the helper's garbage *)
+Theorem C08_jit_call_step : forall g E i reg R next m f,
+  ArmBase.regs_ok reg -> jrel reg R -> env_ok E -> wf_insn i ->
+  opc i = op_call -> src i = 0 -> e_helpers E (u32 (imm i)) = Some f ->
+  exists R', jit_exec g E i next R m = Ok (JNext R' next m) /\
+    jrel (clobber g (set_reg reg 0 (f (rd reg 1) (rd reg 2) (rd reg 3) (rd reg 4) (rd reg 5)))) R' /\ R' 10 = R 10.
+Proof. exact jit_call_sim. Qed.
+
+(** Cranelift, as one step of the compiled program (ClStep.cl_exec): a helper call whose helper is registered is exactly
+    the ISA step (r0 := f(r1..r5), nothing else changes); an unregistered id or a local call is refused *)
+Theorem C08_cranelift_call_step : forall E i reg next fidx stacks m f, wf_insn i -> opc i = op_call -> src i = 0 ->
+  e_helpers E (u32 (imm i)) = Some f ->
+  cl_exec E i reg next fidx stacks m = isa_exec E i reg next fidx stacks m.
+Proof. exact cl_call_step. Qed.
+
 (** both compilers look the helper up under the unsigned immediate and refuse an unregistered id at compile time *)
 Theorem C08_compiled_call_key : forall i, - 2 ^ 31 <= imm i < 2 ^ 31 ->
   gen_jit_call_key i = u32 (imm i) /\ gen_jit_call_unknown_is_error = true /\
@@ -61,3 +79,5 @@ Print Assumptions C08_jit_call_contract.
 Print Assumptions C08_compiled_call_key.
 Print Assumptions C08_other_registers.
 Print Assumptions C08_unknown_helper.
+Print Assumptions C08_jit_call_step.
+Print Assumptions C08_cranelift_call_step.
